@@ -103,6 +103,9 @@ func runMuxStruct(c *mon.Ctx, prop string) {
 		}
 		if i%16 == 3 {
 			ops = wrapPMTScenario(r)
+			if (i/16)%2 == 1 {
+				ops = wrapDescriptorScenario(r)
+			}
 			c.Count("histories_with_a_pmt_of_65536_bytes")
 		}
 		if i%16 == 2 {
